@@ -33,8 +33,8 @@ def ofDec (d : Dec) : Num := PF.ofRat d.toRat
 def kround (x : Float) : Int := pround x
 --@end
 
-/-- `Angle.reduce_deg(deg)` (Angle.py:89), what `Angle(x)` stores for a float `x`. -/
-def reduce_deg (deg : Num) : Num :=
+/-- `Angle.fnd_reduce_deg(deg)` (Angle.py:89), what `Angle(x)` stores for a float `x`. -/
+def fnd_reduce_deg (deg : Num) : Num :=
   -- if abs(deg) >= 360.0:
   if ple 360.0 (pabs deg) then
     -- sign = 1.0 if deg >= 0 else -1.0
@@ -47,8 +47,8 @@ def reduce_deg (deg : Num) : Num :=
     sign * (ofInt d + frac)
   else deg
 
-/-- `Angle.to_positive()` (Angle.py:559) on the stored degrees. -/
-def to_positive (deg : Num) : Num :=
+/-- `Angle.fnd_to_positive()` (Angle.py:559) on the stored degrees. -/
+def fnd_to_positive (deg : Num) : Num :=
   -- if self._deg < 0: self._deg = 360.0 - abs(self._deg); if self._deg >= 360.0: self._deg = 0.0
   if plt deg 0 then
     let d := 360.0 - pabs deg
@@ -81,16 +81,16 @@ def finder_k (r : Finder) (y : Num) : Int :=
 /-- `jde0 = a + k * b` -/
 def finder_jde0 (r : Finder) (k : Int) : Num := ofDec r.A + ofInt k * ofDec r.B
 
-/-- `m = m0 + k * m1; m = Angle(m).to_positive(); m = m.rad()` -/
+/-- `m = m0 + k * m1; m = Angle(m).fnd_to_positive(); m = m.rad()` -/
 def finder_m (r : Finder) (k : Int) : Num :=
-  pradians (to_positive (reduce_deg (ofDec r.M0 + ofInt k * ofDec r.M1)))
+  pradians (fnd_to_positive (fnd_reduce_deg (ofDec r.M0 + ofInt k * ofDec r.M1)))
 
 /-- `t = (jde0 - 2451545.0) / 36525.0` -/
 def finder_t (r : Finder) (jde0 : Num) : Num := (jde0 - ofDec r.tj) / ofDec r.tc
 
 /-- `aa = 82.74 + 40.76 * t; aa = Angle(aa).rad()` … -/
 def finder_aux (r : Finder) (t : Num) : List Num :=
-  r.aux.map fun c => pradians (reduce_deg (ofDec c.1 + ofDec c.2 * t))
+  r.aux.map fun c => pradians (fnd_reduce_deg (ofDec c.1 + ofDec c.2 * t))
 
 /-- `corr = (...)` for the period count `k`. -/
 def finder_corr (r : Finder) (k : Int) : Num :=
@@ -101,14 +101,14 @@ def finder_corr (r : Finder) (k : Int) : Num :=
 /-- `to_return = jde0 + corr` for the period count `k`. -/
 def finder_result (r : Finder) (k : Int) : Num := finder_jde0 r k + finder_corr r k
 
-/-- `elon = (...); elon = Angle(elon).to_positive()` for the period count `k` (degrees). -/
+/-- `elon = (...); elon = Angle(elon).fnd_to_positive()` for the period count `k` (degrees). -/
 def finder_elon (r : Finder) (k : Int) : Option Num :=
   match r.elon with
   | none => none
   | some e =>
     let jde0 := finder_jde0 r k
     let t := finder_t r jde0
-    some (to_positive (reduce_deg (evalE t (finder_m r k) (finder_aux r t) e)))
+    some (fnd_to_positive (fnd_reduce_deg (evalE t (finder_m r k) (finder_aux r t) e)))
 
 /-- The finder as a function of `y = epoch.year()`: the range check, then `jde0 + corr`
     (the argument of the final `Epoch(...)`). -/
@@ -130,7 +130,7 @@ def pa_k (r : PAFinder) (y : Num) (perihelion : Bool) : Num :=
 def pa_jde (r : PAFinder) (k : Num) (perihelion : Bool) : Num :=
   let jde := ofDec r.J0 + k * (ofDec r.P + k * ofDec r.Q)
   -- a1 = Angle(328.41 + 132.788585 * k) ... ; sin(a1.rad())
-  let aux := r.aux.map fun c => pradians (reduce_deg (ofDec c.1 + ofDec c.2 * k))
+  let aux := r.aux.map fun c => pradians (fnd_reduce_deg (ofDec c.1 + ofDec c.2 * k))
   match (if perihelion then r.corrPeri else r.corrAph) with
   | none => jde
   | some e => jde + evalE k 0 aux e      -- jde += corr
@@ -164,8 +164,8 @@ def tm_yday (y m d : Int) : PyRes Int :=
       if i = 1 ∧ calendar_isleap y then (29 : Int) else maxdays.getD i 0).foldl (· + ·) 0
     .ok (before + d)
 
-/-- `Epoch.get_doy(yyyy, mm, dd)` (Epoch.py:752) for int `yyyy`, `mm` and float `dd`. -/
-def get_doy (yyyy mm : Int) (dd : Num) : PyRes Num :=
+/-- `Epoch.fnd_get_doy(yyyy, mm, dd)` (Epoch.py:752) for int `yyyy`, `mm` and float `dd`. -/
+def fnd_get_doy (yyyy mm : Int) (dd : Num) : PyRes Num :=
   -- if dd < 1 or dd >= 32 or mm < 1 or mm > 12: raise ValueError
   if plt dd 1 || ple 32 dd || decide (mm < 1) || decide (mm > 12) then .error .valueError
   else
@@ -193,11 +193,11 @@ def get_doy (yyyy mm : Int) (dd : Num) : PyRes Num :=
 
 /-- `Epoch.year()` (Epoch.py:1775) of an epoch with the given `_jde`. -/
 def epoch_year (jde : Num) : PyRes Num :=
-  -- y, m, d = self.get_date(); doy = Epoch.get_doy(y, m, d)
+  -- y, m, d = self.get_date(); doy = Epoch.fnd_get_doy(y, m, d)
   match get_date jde with
   | .error e => .error e
   | .ok (y, m, d) =>
-    match get_doy y m d with
+    match fnd_get_doy y m d with
     | .error e => .error e
     | .ok doy =>
       -- doy -= 1; days_of_year = 365.0; if self.leap(): days_of_year = 366.0; return y + doy / days_of_year
